@@ -327,7 +327,13 @@ func (t *standardResponseTranscoder) transcodeFunc(protomsg proto.Message, f fun
 	return nil
 }
 
-func (t *standardResponseTranscoder) ContentType(_ proto.Message) (mime string, binary bool) {
+func (t *standardResponseTranscoder) ContentType(protomsg proto.Message) (mime string, binary bool) {
+	// Streamed SSE responses must be labeled as such for clients to handle them,
+	// but errors written instead of the stream are still in the marshaler's format.
+	if t.isSSE && (protomsg == nil || protomsg.ProtoReflect().Descriptor().FullName() != "google.rpc.Status") {
+		return "text/event-stream", false
+	}
+
 	return t.marshaler.ContentType()
 }
 
